@@ -69,13 +69,13 @@ def pairJson (env : Validate.Env) (j : Json) : Except String Json := do
   let k ← rawConsts j
   if !Raw.headerOk t.header then pure <| jobj [("unmodelled", Json.str "header")]
   else if (sc.map (·.1)).eraseDups.length != sc.length then pure <| jobj [("unmodelled", Json.str "duplicate sidecar keys")]
-  else if Raw.declaresDefinition sc then pure <| jobj [("unmodelled", Json.str "definition in the sidecar")]
   else if Raw.onsetUnmodelled t then pure <| jobj [("unmodelled", Json.str "onset spelling")]
   else if Raw.refOrderMatters sc t then pure <| jobj [("unmodelled", Json.str "reference set order")]
   else
-    -- = `Tabular.validateClosedRaw env k sc t` (definition of `validateClosedRaw`, then as for `closed.c07`)
-    let r := runTable env k.kBanned (Raw.rawCfg k sc t) (Raw.rawRows sc t)
-    pure <| r.setObjVal! "columns" (jarr ((Raw.aColumns sc t.header).map jstr))
+    -- `Tabular.validateClosedRawD env k sc t`: the sidecar's definitions join the dictionary (`Raw.envD`)
+    let r := runTable (Raw.envD env sc) k.kBanned (Raw.rawCfg k sc t) (Raw.rawRows sc t)
+    pure <| (r.setObjVal! "columns" (jarr ((Raw.aColumns sc t.header).map jstr))).setObjVal! "defs"
+      (jarr ((Raw.sidecarDict env sc).map fun e => jstr e.key))
 
 /-- every entry string of the sidecar and every assembled string the full checks are asked about -/
 def sidecarTexts (env : Validate.Env) (g : SidecarV.Guards) (doc : SidecarV.Json) :
@@ -94,28 +94,35 @@ def sidecarTexts (env : Validate.Env) (g : SidecarV.Guards) (doc : SidecarV.Json
     if lists.length != refs.length then [] else (SidecarV.product lists).map (SidecarV.combine O s refs)
   pure (entries, full)
 
-def sidecarUnmodelled (env : Validate.Env) (g : SidecarV.Guards) (doc : SidecarV.Json) : Option String :=
+/-- `defsModelled = false`: for callers that evaluate with `validateClosed` (no definition extraction), a sidecar that
+declares definitions is outside their fragment -/
+def sidecarUnmodelled (env : Validate.Env) (g : SidecarV.Guards) (doc : SidecarV.Json) (defsModelled : Bool := false) :
+    Option String :=
   match sidecarTexts env g doc with
   | .error _ => none      -- the model's own answer (a raise) stands
   | .ok (entries, full) =>
-    if entries.any (fun s => HedVerif.Closed.defCount env s != 0) then some "definition in the sidecar"
+    if !defsModelled && entries.any (fun s => HedVerif.Closed.defCount env s != 0) then some "definition in the sidecar"
     else if entries.any (fun s => Validate.unmodelledP env (HedVerif.Closed.parseNoRefs env s)) then some "value class pattern"
     else if full.any (fun s => Validate.unmodelledP env (Validate.parse env s)
                                || Validate.dupRaises env (Validate.parse env s).root0) then some "assembled string"
     else none
 
-def docJson (env : Validate.Env) (j : Json) : Except String Json := do
+def docJson (env0 : Validate.Env) (j : Json) : Except String Json := do
   let doc ← C08.decode (← getVal j "doc")
   let g := if getBoolD j "fixed" true then SidecarV.Guards.fixed else SidecarV.Guards.unfixed
-  match sidecarUnmodelled env g doc with
+  -- stage 1: the sidecar's own definitions; stage 2: every check against them followed by the external ones
+  let env := HedVerif.Closed.envWith env0 (HedVerif.Closed.sidecarDict env0 g doc)
+  match sidecarUnmodelled env g doc true with
   | some why => pure <| jobj [("unmodelled", Json.str why)]
   | none =>
-    -- = `SidecarV.validateClosed env g doc` (`Closed.memoSidecar_eq`), each string validated once
+    -- = `SidecarV.validateClosedD env0 g doc` (`Closed.memoSidecar_eq`), each string validated once
     let texts := match sidecarTexts env g doc with
       | .ok (entries, full) => (entries ++ full).eraseDups
       | .error _ => []
-    match SidecarV.validate g (HedVerif.Closed.memoSidecar (HedVerif.Closed.sidecarOracle env) texts) doc with
-    | .ok is => pure <| jobj [("ok", jarr (is.map C08.issueJson))]
+    match SidecarV.validateD g (HedVerif.Closed.memoSidecar (HedVerif.Closed.sidecarOracleD env) texts)
+        (env0.defs.map (·.key)) doc with
+    | .ok is => pure <| jobj [("ok", jarr (is.map C08.issueJson)),
+                              ("defs", jarr ((HedVerif.Closed.sidecarDict env0 g doc).map fun e => jstr e.key))]
     | .error .unmodelled => pure <| jobj [("unmodelled", Json.str "pandas coercion")]
     | .error e => pure <| jobj [("raise", Json.str (C08.exnName e))]
 
